@@ -130,7 +130,12 @@ int main(void) {
     if (rec) for (int j = 0; j < NR; j++) if (want[1] && rkind[1][j] == T_CELL) want[rtgt[1][j]] = 1;
     uint64_t n = 0; for (int k = 0; k < NC + NX; k++) n += want[k];
     CHECK(deps.f1 == n, "number of dependencies");
-    for (int k = 0; k < NC + NX; k++) { int found = am_get(&deps, cname[k]) == (void*)&cells[k]; CHECK(found == want[k], "dependency set == direct (or transitive) set of referenced cells"); } }
+#ifdef REAL
+#define DEPGET(m, k) ((void*)_ZNK5gdstk3MapIPNS_4CellEE3getEPKc((m), (k)))
+#else
+#define DEPGET(m, k) am_get((m), (k))
+#endif
+    for (int k = 0; k < NC + NX; k++) { int found = DEPGET(&deps, cname[k]) == (void*)&cells[k]; CHECK(found == want[k], "dependency set == direct (or transitive) set of referenced cells"); } }
 #endif
   WITNESS_POINT();
   return 0;
